@@ -379,6 +379,13 @@ def sym_array(name, shape, kind, own=False, unique=True):
     return Arr(shape, get, kind, fn=fn, own=own, name=nm)
 
 
+def _nil_comp(k):
+    if isinstance(k, str) and k.startswith("arr:"):
+        ef = z3.Function(fresh_name("nilarr"), z3.IntSort(), sort_of(k[4:]))
+        return Arr((z3.Int(fresh_name("nillen")),), (lambda j, ef=ef: ef(to_z3(j))), k[4:])
+    return z3.Const(fresh_name("nil"), sort_of(k))
+
+
 class Lst:
     """Python list: length (Int term or python int) and elem getter returning a value (scalar or tuple)."""
 
@@ -398,7 +405,7 @@ class Lst:
             if not items or is_concrete(i):
                 # only reachable in specification expressions under a vacuous range guard
                 if isinstance(elem, tuple) and elem[0] == "tuple":
-                    return tuple(z3.Const(fresh_name("nil"), sort_of(k)) for k in elem[1])
+                    return tuple(_nil_comp(k) for k in elem[1])
                 return z3.Const(fresh_name("nil"), sort_of(elem if isinstance(elem, str) else "int"))
             return _select(items, i)
 
@@ -423,13 +430,29 @@ def sym_list(name, elem, length=None):
     """Fresh symbolic list. elem: 'int'|'real'|'bool' or ('tuple', [kinds])."""
     n = length if length is not None else z3.Int(fresh_name(name + "_len"))
     if isinstance(elem, tuple) and elem[0] == "tuple":
-        fns = [z3.Function(fresh_name(f"{name}_{k}"), z3.IntSort(), sort_of(kd)) for k, kd in enumerate(elem[1])]
+        comps = []
+        for k, kd in enumerate(elem[1]):
+            if kd.startswith("arr:"):
+                ek = kd[4:]
+                lf = z3.Function(fresh_name(f"{name}_{k}len"), z3.IntSort(), z3.IntSort())
+                ef = z3.Function(fresh_name(f"{name}_{k}elt"), z3.IntSort(), z3.IntSort(), sort_of(ek))
+                comps.append(("arr", ek, lf, ef))
+            else:
+                comps.append(("sc", z3.Function(fresh_name(f"{name}_{k}"), z3.IntSort(), sort_of(kd))))
 
         def get(i):
-            return tuple(f(to_z3(i)) for f in fns)
+            out = []
+            for c in comps:
+                if c[0] == "sc":
+                    out.append(c[1](to_z3(i)))
+                else:
+                    _, ek, lf, ef = c
+                    out.append(Arr((lf(to_z3(i)),), (lambda j, i=i, ef=ef: ef(to_z3(i), to_z3(j))), ek))
+            return tuple(out)
 
         lst = Lst(n, get, elem)
-        lst.fns = fns
+        lst.fns = [c[1] if c[0] == "sc" else c[3] for c in comps]
+        lst.len_fns = [c[2] for c in comps if c[0] == "arr"]
         return lst
     fn = z3.Function(fresh_name(name), z3.IntSort(), sort_of(elem))
     lst = Lst(n, lambda i: fn(to_z3(i)), elem)
